@@ -13,6 +13,17 @@ CHECKS = {
     design="DESIGN.md §5 C11"),
 }
 
+CHECKS["C10"] = dict(
+    text="TLC exhaustively checks spec/CArc.tla (pool of CArc/CArcSome/opaque/Option/std-Arc handles over counted allocations, per-thread slot ownership, stored clone/drop function call counts) for all interleavings of 2 threads; every generated behaviour is replayed on real cglue::arc handles with each operation executed on the OS thread the spec names; -simulate behaviours of depth 40; random driver traces validated by TLC (Trace_CArc).",
+    note="Trusted: TLC, rt/src/arcad.rs projection (Arc::strong_count of a retained Arc, destructor counters, interposed clone_fn/drop_fn via the C layout). Interleaving granularity is one public operation.",
+    technique="TLA+ spec + TLC exhaustive model check over thread interleavings; behaviour replay on real threads; trace validation by TLC",
+    design="DESIGN.md §5 C10")
+CHECKS["C19"] = dict(
+    text="TLC exhaustively checks spec/Waker.tla (original waker count/wakes, shared records, foreign waker slots owned by threads, polls) and shows that the pre-fix deviation violates ReleasedAtMostOnce; every generated behaviour is replayed through opaque Future, Stream and Sink objects whose poll executes the script step by step so other threads' operations interleave with the poll; simulate behaviours of depth 60; random traces validated by TLC.",
+    note="Trusted: TLC, rt/src/wakerad.rs (counting Arc waker with 64 spare references so a double release is a count, Waker::data() for record identity). Found and fixed F1 (see known_findings.json).",
+    technique="TLA+ spec + TLC exhaustive model check (ideal and deviation configs); behaviour replay through opaque Future/Stream/Sink; trace validation by TLC",
+    design="DESIGN.md §5 C19, §6 F1")
+
 NOT_YET = {}
 
 def main():
